@@ -598,6 +598,13 @@ structure ConverterContract {V : Type} (sem : OpSem V) (lit : Lit → V) (conv :
   inits : ∀ p ∈ (conv g).inits, g.inputs.contains p.1 = false
   meaning : ∀ vals, evalModel sem lit (conv g) vals = evalModel sem lit g vals
 
+/-- the decidable part of the contract, evaluated by the driver on the converter's ACTUAL result of every
+    correspondence case (`contract` in the answer; the harness reports a converted case where it is false) -/
+def contractCheck (h g : Graph) : Bool :=
+  h.inputs == g.inputs && h.outputs == g.outputs &&
+  (Node.assignedL h.nodes).all (fun x => !g.inputs.contains x) &&
+  h.inits.all (fun p => !g.inputs.contains p.1)
+
 /-- `adapt_inline`; `conv` is `onnx.version_converter.convert_version(·, target)` on the private
     (normalised) copy, `first` what `to_onnx` emitted during the build -/
 def adaptInline (conv : Graph → Graph) (c : Ctx) (varNames : List String) (g : Graph)
